@@ -1,5 +1,85 @@
-# extra entries for genmanifest.py (exec'd there): CHECKS[...] and NA[...]
+# extra entries for genmanifest.py (exec'd there): CHECKS[...] / NA[...] / HOOK_COMMITS
+HOOK_COMMITS = ["00f9f91", "0c36a77"]
+# only properties whose check currently passes on the unchanged tree with valid evidence are claimed
+CLAIMED = ["C08", "C19"]
+_T = "CBMC 6.11 bounded model checking of the real C sources (goto-cc), "
+CHECKS["C01"] = dict(
+  text="Bounded model checking of the real multiplication routes against the textbook GF(2) product written in the harness: naive / vector routes and M4RM with every bit of A, B and the prior C symbolic at small inner dimension; larger shapes with one operand (or a word band) symbolic and the rest concrete; the Strassen front ends at base-case sizes and the A==B squaring dispatch; DJB compile+apply; scaled-down cache configuration for the blocked loops. The multi-core route is checked at index level with symbolic dimensions (C16 harness).",
+  note="fully symbolic products only up to inner dimension 17 (24 thorough); Strassen-Winograd recursion with symbolic matrix bits is out of reach (DESIGN F14) - only its base-case dispatch and the mp4 tiling are covered; REGION queries claim 'for all values of the symbolic part' for one concrete remainder (seed in evidence)",
+  technique=_T + "symbolic operands vs. reference product (cadical/kissat/z3)", ref="5/C01")
+CHECKS["C02"] = dict(
+  text="Bounded model checking of the echelonisation routines against a declarative oracle (rank from an independent reference elimination, result is a (reduced) row echelon form, row spaces equal): naive Gauss fully symbolic up to 3x4 (thorough 5x5); M4RI for k in 0..10, PLUQ-based, hybrid (density verdict arbitrary via stub) and top-reduction in PASSIVE mode [K|S]: the pivot-carrying columns K are concrete per query (rank-profile families, word-boundary gaps, rank-deficient variants), 70 further columns S are fully symbolic.",
+  note="the quantifier over rank profiles is NOT covered by the solver for the table-driven routines (their control flow cannot be executed symbolically, DESIGN F17): per query the profile is concrete, only S is universally quantified; naive routine is fully symbolic but tiny",
+  technique=_T + "PASSIVE/FULL symbolic inputs vs. declarative echelon-form oracle (cadical/z3)", ref="5/C02")
+CHECKS["C03"] = dict(
+  text="Bounded model checking of PLE/PLUQ: r = rank, LAPACK-range of P and Q (pre-filled with junk), P*L*E = A0 resp. P*L*U*Q = A0 reconstructed word-sliced from the overwritten matrix, pivot columns strictly increasing and equal to the reference column rank profile, zero storage outside L and E/U. Naive routines fully symbolic (<= 3x4); mzd_ple / mzd_pluq / _mzd_ple_russian / _mzd_pluq_russian and the block-recursive algorithm (scaled-down PLE cutoff) in PASSIVE mode.",
+  note="as C02: rank profile concrete per query for the table-driven and recursive routines; last input row concrete (mzd_first_zero_row)",
+  technique=_T + "PASSIVE/FULL symbolic inputs, algebraic reconstruction oracle (cadical/z3)", ref="5/C03")
+CHECKS["C04"] = dict(
+  text="Bounded model checking of the four TRSM variants: T (with arbitrary junk in the unused triangle) and B fully symbolic in the word base case (n <= 16, widths 1..70, tall B for the right variants); Four-Russians, trtri+mul and recursive regimes (scaled-down block size) with concrete T and fully symbolic B, and T symbolic in a word band; oracle T*X = B0 resp. X*T = B0 using only the named triangle and the unit diagonal; T unchanged.",
+  note="symbolic T beyond 16 (24) rows only band-wise; recursion through configuration tinyL3b (block size 64)",
+  technique=_T + "symbolic T and B vs. T*X==B0 (cadical/kissat/z3)", ref="5/C04")
+CHECKS["C05"] = dict(
+  text="Bounded model checking of inversion: mzd_inv_m4ri wrapper with A fully symbolic (n up to 70) and the elimination replaced by a contract stub that asserts its precondition ([A|I] layout, reduced form requested, admissible table parameter) and assumes its post-condition ([I|X], A*X=I) - the contract itself is C02's PASSIVE result; mzd_invert_naive fully symbolic n<=3; mzd_trtri_upper fully symbolic n<=12 and band-symbolic for n in {64,65,70,130} incl. the recursive branch (scaled-down L3).",
+  note="whole-run M4RI inversion for all invertible A is split into wrapper + contract (assume/guarantee); singular A excluded as in the property",
+  technique=_T + "contract stub (goto-instrument --replace-calls) + symbolic inputs (cadical/kissat)", ref="5/C05")
+CHECKS["C06"] = dict(
+  text="Bounded model checking of mzd_solve_left and _mzd_pluq + mzd_pluq_solve_left: A concrete (random, sparse, zero, rank-deficient, identity-like; m<n, m=n, m>n), B fully symbolic including the padding rows, so every consistent and inconsistent right-hand side is decided by the solver; the verdict is compared with an independent reference elimination of [A_padded | B], and A0*X = B0 is checked whenever 0 is returned.",
+  note="A is concrete per query (PLUQ control cannot be symbolic, DESIGN F17); claim is 'for all B'",
+  technique=_T + "concrete A, fully symbolic B vs. reference solvability oracle (cadical/z3)", ref="5/C06")
+CHECKS["C07"] = dict(
+  text="Bounded model checking of mzd_kernel_left_pluq in PASSIVE mode A=[K|S] (K concrete with full row rank over rank-profile families, S up to 70 symbolic columns): NULL exactly when rank == ncols, K is n x (n-r), A0*K = 0 (bilinear in S and the result), rank(K) = n-r by an independent reference elimination; nullity 64 (word-multiple tail), rank-deficient, zero and full-column-rank inputs.",
+  note="pivot structure concrete per query; last input row concrete",
+  technique=_T + "PASSIVE symbolic inputs vs. algebraic kernel oracle (cadical/kissat)", ref="5/C07")
 CHECKS["C08"] = dict(
   text="Bounded model checking of the real mzd.c/mzd.h data-movement routines (mzd_add/_mzd_add incl. all documented aliasing forms and each width-specialised loop, mzd_transpose over its size classes, mzd_copy, mzd_copy_row, mzd_set_ui, mzd_submatrix at every start bit offset, mzd_concat, mzd_stack, mzd_extract_u/l): every matrix bit, and every bit of a supplied destination, is a solver variable; the oracle is the entry-wise definition written in the harness. One query per concrete shape; the solver decides all contents.",
   note="shapes limited to the grid in evidence.bounds (transpose <= 130x130 quick / <= 769 thorough); SSE2 configuration only for the wide-row vector loop of addition; destination matrices are owned (zero excess bits on entry)",
-  technique="CBMC bounded model checking, symbolic matrix contents, entry-wise reference (cadical/z3)", ref="5/C08")
+  technique=_T + "symbolic matrix contents, entry-wise reference (cadical/z3)", ref="5/C08")
+CHECKS["C09"] = dict(
+  text="The functional harnesses of C01/C02/C04/C05/C08/C13/C17 re-run with operands turned into windows of larger parents whose every word is symbolic (row offset, word offsets 1 and 2 = both 16-byte phases, view width mod 64 in {0,1,63}, parent wider or ending with the view): each query asserts the functional oracle on the viewed block and, bit for bit, that nothing of the parent outside any view changed.",
+  note="operations in the table of plans/C09.py; eliminations only in PASSIVE mode; faults from misaligned vector loads are modelled by the library's own alignment asserts (SSE2 config, thorough)",
+  technique=_T + "symbolic parents around views + frame assertion (cadical/z3)", ref="5/C09")
+CHECKS["C10"] = dict(
+  text="Every functional harness (C01-C09) already starts from destinations filled with symbolic junk and from a heap whose fresh blocks hold nondeterministic contents (CBMC memory model), and asserts zero padding of each owned result - a dependence on stale memory breaks a functional assertion for some heap content. This check adds the default-cache configuration with the block cache pre-loaded with dirty recycled blocks of exactly the sizes the scenario requests, supplied-destination variants, and matrix freshness at the block-cache threshold (scaled-down L3).",
+  note="call histories are represented by the cache/heap state they leave, not replayed; sizes beyond the grids (e.g. 32 MiB blocks) are outside",
+  technique=_T + "nondeterministic heap + dirty block cache, same functional oracles (cadical/z3)", ref="5/C10")
+CHECKS["C11"] = dict(
+  text="CBMC's full check set (array bounds, pointer validity incl. NULL / freed / out-of-object dereference, undefined shifts, signed overflow, division by zero; memory-leak check on complete call sequences) on a scenario grid drawn from C01-C08 with symbolic contents, plus the checked public wrappers called with incompatible SYMBOLIC dimensions on header-only operands (any data access is a NULL dereference; the call must reach m4ri_die). C13, C14, C17, C18 and C20 run with the same checks inside their own plans.",
+  note="forming (not dereferencing) an out-of-bounds pointer and the cross-object pointer subtraction in mzd_t_free are reported separately (coverage.pointer_arithmetic_only_notes), not as violations; CBMC has no alignment trap - misaligned vector access is covered through the library's own alignment asserts in the SSE2 configuration",
+  technique=_T + "all standard + pointer/shift/overflow checks, leak check, symbolic dimensions for wrappers (cadical/kissat)", ref="5/C11")
+CHECKS["C12"] = dict(
+  text="A subset of the C01-C07/C13 query grids re-targeted to other regenerated configurations (default caches, OpenMP code paths sequentialised, SSE2 leaf kernels, smallest real cache triple, scaled-down L1/L2/L3 so that every cache-derived threshold falls inside the verifiable shapes) and swept over k in 0..10 and cutoffs; every run is compared with the same configuration-independent oracle, so results agree across configurations and parameters within the bounds.",
+  note="real cache triples only select regimes at sizes above the grids (outside); tiny triples are below the property's 'real machine' range and are used because thresholds occur only in comparisons",
+  technique=_T + "same oracles under regenerated m4ri_config.h variants (cadical/z3)", ref="5/C12")
+CHECKS["C13"] = dict(
+  text="Bounded model checking of row/column operations and bit-range primitives with symbolic contents AND symbolic indices, offsets, lengths and row ranges; the combine family at widths 1..10 words; permutation application with fully symbolic LAPACK-style permutations (left: length <= 6; right: full permutations on <= 8 columns and symbolic 5-position windows sliding over 70/130-column matrices incl. the word boundary; capped and triangular variants; scaled-down L1 for the strip height); oracle = sequential swaps in the documented order; inverse law and left/right consistency.",
+  note="long arbitrary permutations on wide matrices only through windows of <= 5 (7) non-identity positions; mzd_and_bits and the start_col>0 capped variant have no caller and undocumented semantics (outside)",
+  technique=_T + "symbolic contents and indices vs. sequential-swap reference (cadical/kissat)", ref="5/C13")
+CHECKS["C14"] = dict(
+  text="Inductive steps from arbitrary valid allocator states: one mzd_t_malloc / mzd_t_free from every header-pool state with 1..3 blocks (all used-masks symbolic, current_cache any member), one m4ri_mmc_malloc / m4ri_mmc_free from every block-cache state over 3 slots, each followed by the representation invariant, no-overlap and exact-slot assertions; plus scripted histories with symbolic canaries, nondeterministic recycled memory, all CBMC memory checks and a leak check after m4ri_mmc_cleanup. Capacities scaled to 3 through the guarded hook.",
+  note="the representation invariant is mine (reviewed against mzd.c/mmc.c); hook in mzd_t_free encodes the flat-address-space fact CBMC lacks; real capacities 16/16 are parameters of the same code",
+  technique=_T + "one-step-from-arbitrary-state + scripted histories, pointer and leak checks (cadical/kissat)", ref="5/C14")
+CHECKS["C15"] = dict(
+  text="The schedule quantifier is not encoded (no usable CBMC thread model here). Decided instead, per public entry point in the thread-safe configuration: every assignment and every free reachable from the call targets the operands' storage, memory allocated during the call or the stack - never an object of static storage duration (dynamic frame-condition checking, goto-instrument --dfcc). With a thread-safe malloc this implies race freedom for threads on disjoint operands, and per-thread results equal the sequential ones (C01-C08).",
+  note="sufficient condition, not an exploration of interleavings; libc thread-safety assumed; concrete operand contents (the frame condition quantifies over writes)",
+  technique="CBMC dynamic frame condition checking (goto-instrument --dfcc --enforce-contract) of the real call trees", ref="5/C15")
+CHECKS["C16"] = dict(
+  text="Reduced-strength check (pragmas and thread counts cannot be encoded): the real _mzd_mul_mp4/_mzd_addmul_mp4 bodies run on data-less headers with SYMBOLIC dimensions (1..1100) and cutoff; contract stubs record every product term in a ghost ledger: windows aligned/in range/non-empty, operands conform, every term reaches every block of C exactly once, sections own distinct blocks (hence commute), the multiply route never accumulates onto prior C. Plus the OpenMP-only code of M4RM / elimination executed sequentially against the C01/C02 oracles, and a frame check that a table-building iteration writes only its own table.",
+  note="a change that only edits a pragma / data-sharing clause or depends on iteration-to-thread assignment is invisible (stated in DESIGN 5/C16)",
+  technique="CBMC with symbolic dimensions on header-only operands + contract stubs (goto-instrument --replace-calls), dfcc frame check", ref="5/C16")
+CHECKS["C17"] = dict(
+  text="Bounded model checking of the observers with fully symbolic contents on owned matrices and on views with symbolic surroundings: equal <=> all entries equal (and dims), cmp == 0 <=> equal, antisymmetry, transitivity on three symbolic matrices, is_zero, first_zero_row, find_pivot for every start row x symbolic start column per 64-column band (fails exactly on a zero region, else left-most non-zero column, row holds a one, outputs untouched on failure), read-after-write.",
+  note="shapes <= 5 rows x 200 (260) columns",
+  technique=_T + "symbolic contents and start positions vs. abstract-matrix definitions (cadical/kissat)", ref="5/C17")
+CHECKS["C18"] = dict(
+  text="The real io.c parsers/writers driven through nondeterministic libpng/stdio stubs constrained only by the documented contracts: PNG round trip for symbolic matrices with ncols in every residue class mod 8 and around multiples of 64; malformed PNG headers (every valid bit depth x colour type x interlace, arbitrary row bytes of the contract length, creation failures) must be rejected without any access outside the reader's buffers; JCF reader on arbitrary token streams; string constructor on arbitrary characters.",
+  note="libpng/zlib internals are trusted (stubs encode row-length, packswap and invert_mono semantics); real file bytes are outside",
+  technique=_T + "nondeterministic FFI stubs + pointer checks + round-trip oracle (cadical/z3)", ref="5/C18")
+CHECKS["C19"] = dict(
+  text="Bounded model checking of the real graycode.c / misc.h / parity.h / brilliantrussian.c functions: the solver decides the assertions for ALL inputs of each finite domain (symbolic table index pairs, all 4096 parity input bits, all mask arguments, all words, all strictly increasing Q of each length, all table patterns x and all row contents).",
+  note="code books k<=9 (quick) / k<=10 (thorough): k=11..16 exceed CBMC's memory and are outside the claim; mzd_make_table k<=6 (8) on 1-10 word rows with r+k<=nrows",
+  technique=_T + "fully symbolic inputs over finite domains (cadical/z3)", ref="5/C19")
+CHECKS["C20"] = dict(
+  text="CBMC's --malloc-may-fail --malloc-fail-null makes every allocation request of 13 scenarios (create/window, pool growth, all product routes, eliminations, factorisations, inversions, solve, kernel, data movement, permutations, DJB compile with array growth) return NULL nondeterministically in one query per scenario and configuration - all fault positions and multi-fault combinations - with all pointer checks on; the error handler is a path-ending stub; a normally returning scenario must hand back complete objects.",
+  note="scenarios listed in the plan only; PNG paths excluded (FFI stubs); data concrete",
+  technique="CBMC fault injection at every allocation site (--malloc-may-fail) with pointer checks", ref="5/C20")
